@@ -12,6 +12,7 @@ import (
 	"math/rand"
 	"os"
 	"path/filepath"
+	"sort"
 	"time"
 
 	"github.com/DataDog/sketches-go/ddsketch"
@@ -85,10 +86,20 @@ func recordSketchTrace(w *bufio.Writer, rng *rand.Rand, weighted bool, nValues i
 		return int64(c), ""
 	}
 	// key distribution
-	dist := rng.Intn(5)
+	dist := rng.Intn(7)
 	genTok := func() int {
 		var k int
 		switch dist {
+		case 5: // mass at the top, thin tail below (isolated low indexes under a densely filled page)
+			k = maxKey - int(rng.ExpFloat64()*float64(maxKey)/5)
+			if k < 0 {
+				k = 0
+			}
+		case 6: // nearly everything at one high index, a few values anywhere below
+			k = maxKey
+			if rng.Intn(12) == 0 {
+				k = rng.Intn(maxKey + 1)
+			}
 		case 0:
 			k = rng.Intn(maxKey + 1)
 		case 1:
@@ -136,6 +147,38 @@ func recordSketchTrace(w *bufio.Writer, rng *rand.Rand, weighted bool, nValues i
 				}
 				if q < 1 {
 					qs = append(qs, math.Nextafter(q, 1))
+				}
+			}
+		}
+		// ranks at the boundaries between bins (the last rank of one bin, the first of the next): where a store that keeps
+		// its content in several places (buffer and pages, shifted arrays) hands over from one to the other. The bins are
+		// read from the sketch only to CHOOSE the queries; the verdict comes from the specification's bag.
+		if tw := s.GetCount(); tw > 1 {
+			type vc struct{ v, c float64 }
+			var bins []vc
+			s.ForEach(func(v, c float64) bool { bins = append(bins, vc{v, c}); return false })
+			sort.Slice(bins, func(a, b int) bool { return bins[a].v < bins[b].v })
+			keep := 1.0
+			if len(bins) > 40 {
+				keep = 40 / float64(len(bins))
+			}
+			cum := 0.0
+			for _, b := range bins {
+				cum += b.c
+				if rng.Float64() > keep {
+					continue
+				}
+				for _, r := range []float64{cum - 1, cum} {
+					if r >= 0 && r <= tw-1 {
+						q := r / (tw - 1)
+						qs = append(qs, q)
+						if q > 0 {
+							qs = append(qs, math.Nextafter(q, 0))
+						}
+						if q < 1 {
+							qs = append(qs, math.Nextafter(q, 1))
+						}
+					}
 				}
 			}
 		}
@@ -220,6 +263,13 @@ func recordSketchTrace(w *bufio.Writer, rng *rand.Rand, weighted bool, nValues i
 			emit(&skTraceLine{Op: "AddW", S: si + 1, V: v, W: wq, Cnt: c, Near: []int{}})
 		case r < 94:
 			ti := (si + 1 + rng.Intn(2)) % 3
+			if sks[ti].GetCount()+sks[si].GetCount() > 1<<22 {
+				// repeated merges double the totals: keep them far below TLC's 32-bit integers
+				sks[ti].Clear()
+				inputs[ti] = map[int]bool{}
+				emit(&skTraceLine{Op: "Clear", S: ti + 1, Near: []int{}})
+				continue
+			}
 			if err := sks[ti].MergeWith(sks[si]); err != nil {
 				return "MergeWith of sketches sharing a mapping refused: " + err.Error(), lines
 			}
